@@ -470,6 +470,7 @@ class Module(HasAccessibles):
             except BadValueError as e:
                 self.errors.append(f'{name}.{propname}: {str(e)}')
         # register the wire name only now: the configuration may have changed the export property
+        accessible.fixExport()  # export=True -> name
         if accessible.export:
             self.accessiblename2attr[accessible.export] = name
         if isinstance(accessible, Parameter):
